@@ -1127,6 +1127,21 @@ GenTx MempoolSim::GenOfKind(Src& s, GenKind kind)
     }
     }
     if (!g.tx) { g.kind = GenKind::PLAIN; fallback_plain(); }
+    if (!g.tx) {
+        // nothing spendable at all (e.g. every confirmed coin is already used by a pool tx): never hand out a null transaction;
+        // a spend of a non-existent outpoint is rejected by the node (missing inputs)
+        CMutableTransaction m;
+        m.version = 2;
+        m.vin.emplace_back(COutPoint(Txid::FromUint256(uint256{uint8_t(0xee)}), ++m_nonce), CScript(), 0xfffffffdU);
+        m.vout.emplace_back(10000, m_sim->keys.Script(SpkType::ANYONE_P2WSH));
+        g.kind = GenKind::JUNK;
+        g.tx = MakeTransactionRef(m);
+        g.package.clear();
+        g.boundary_ok = false;
+        g.fee = 0;
+        g.note = "junk (nothing spendable)";
+        Remember(g.tx);
+    }
     return g;
 }
 
